@@ -1,5 +1,8 @@
 import ScrapliModel.Lemmas.Channel
 import ScrapliModel.Generated.Consts
+import ScrapliModel.Lemmas.GoSem
+import ScrapliModel.Generated.BodiesChannel
+import ScrapliModel.Lemmas.BodiesUtil
 /-!
 # C01 — CLI exchanges return exactly the device's output, aligned per command
 
@@ -208,5 +211,100 @@ theorem verbatim_echo_accepted (cmd pre post : Bytes) :
   · rw [roughlyContains_iff]
     exact ((List.sublist_append_right pre cmd).trans (List.sublist_append_left _ post))
   · exact isInfix_append cmd pre post
+
+/-! ## tie to the source: translated bodies = model (regenerated on every run) -/
+
+/-- the body of `getProcessReadBufSearchDepth` as the translator renders it from the current source
+(`Generated/BodiesChannel.lean`) computes `searchDepth` with the regenerated multiplier, for all
+(non-negative) depths and input lengths -/
+theorem generated_getProcessReadBufSearchDepth_eq (depth inputLen : Nat) :
+    Gen.Bodies.Channel.getProcessReadBufSearchDepth depth inputLen
+      = (searchDepth Gen.Channel.inputSearchDepthMultiplier depth inputLen : Nat) := by
+  unfold Gen.Bodies.Channel.getProcessReadBufSearchDepth searchDepth
+  simp only [gt_iff_lt, decide_eq_true_eq]
+  by_cases h : depth < Gen.Channel.inputSearchDepthMultiplier * inputLen
+  · have h' : (depth : Int) < (Gen.Channel.inputSearchDepthMultiplier : Int) * (inputLen : Int) := by
+      exact_mod_cast h
+    simp [h, h']
+  · have h' : ¬ (depth : Int) < (Gen.Channel.inputSearchDepthMultiplier : Int) * (inputLen : Int) := by
+      exact_mod_cast h
+    simp [h, h']
+
+/-- the body of `processReadBuf` as the translator renders it from the current source never indexes
+out of range (`some`) and computes exactly `window`, for every buffer and every depth ≥ 0 -/
+theorem generated_processReadBuf_eq (rb : Bytes) (d : Nat) :
+    Gen.Bodies.Channel.processReadBuf rb d = some (window rb d) := by
+  unfold Gen.Bodies.Channel.processReadBuf window
+  by_cases h : rb.length ≤ d
+  · have h' : Go.len rb ≤ (d : Int) := by simp only [Go.len]; exact_mod_cast h
+    simp [h, h']
+  · have h' : ¬ Go.len rb ≤ (d : Int) := by simp only [Go.len]; exact_mod_cast h
+    have hsub : Go.len rb - (d : Int) = ((rb.length - d : Nat) : Int) := by
+      simp only [Go.len]; omega
+    simp only [h, h', decide_false, Bool.false_eq_true, if_false, hsub, Go.slice_from]
+    have hok : Go.sliceOK (Go.len rb) ((rb.length - d : Nat) : Int) (Go.len rb) = true :=
+      Go.sliceOK_from rb _ (by omega)
+    simp only [hok, Bool.not_true, Bool.false_eq_true, if_false]
+    generalize rb.drop (rb.length - d) = prb
+    cases hi : indexLF prb with
+    | none => simp [Go.optIdx]
+    | some i =>
+      have hlt : i < prb.length := by
+        obtain ⟨rest, hr⟩ := indexLF_some _ _ hi
+        have := congrArg List.length hr
+        simp only [List.length_drop, List.length_cons] at this
+        omega
+      by_cases hpos : i > 0
+      · simp [Go.optIdx, hpos, Go.slice_from, Go.sliceOK_from prb i (by omega)]
+      · simp [Go.optIdx, hpos]
+
+/-- outside the model's domain (`d : Nat`): with a negative search depth the translated body fails
+its bounds test on every buffer — the code panics (`rb[len(rb)-searchDepth:]`, slice bounds out of
+range); `WithPromptSearchDepth` does not validate its argument -/
+theorem generated_processReadBuf_negative_depth_panics (rb : Bytes) (d : Int) (h : d < 0) :
+    Gen.Bodies.Channel.processReadBuf rb d = none := by
+  unfold Gen.Bodies.Channel.processReadBuf
+  have h0 : (0 : Int) ≤ Go.len rb := by simp [Go.len]
+  have h1 : ¬ Go.len rb ≤ d := by omega
+  have h2 : Go.sliceOK (Go.len rb) (Go.len rb - d) (Go.len rb) = false := by
+    simp only [Go.sliceOK, Bool.and_eq_false_iff, decide_eq_false_iff_not]
+    left; right; omega
+  simp [h1, h2]
+
+example : Gen.Bodies.Channel.processReadBuf [97, 98, 99] (-1) = none := by decide
+
+/-- the body of `(*Channel).processOut` as the translator renders it from the current source
+(`make` + `range` loop with indexed stores, `bytes.Split/TrimRight/Join/Trim`; `PromptPattern.
+ReplaceAll(·, nil)` and `ReturnChar` are the `Cfg` fields) never indexes out of range and computes
+`processOut`, for every configuration and every buffer -/
+theorem generated_processOut_eq (cfg : Cfg) (b : Bytes) :
+    Gen.Bodies.Channel.processOut cfg.ret cfg.stripP b cfg.strip = some (processOut cfg b) := by
+  unfold Gen.Bodies.Channel.processOut processOut
+  have h0 : (0 : Int) ≤ Go.len (splitLF b) := by simp [Go.len]
+  simp only [h0, decide_true, Bool.not_true, Bool.false_eq_true, if_false]
+  rw [Go.forRange_set_map (ρ := Bytes) rstripSpaces (splitLF b) ([] : Bytes)]
+  cases cfg.strip <;> rfl
+
+/-- the inner loop of `util.BytesRoughlyContains` (`bytesRoughlyContainsIterOutputForInputChar`) as
+translated from the current source: never out of range; finds the first occurrence of the byte and
+returns what follows it -/
+theorem generated_bytesRoughlyContainsIterOutputForInputChar_eq (c : UInt8) (out : Bytes) :
+    Gen.Bodies.Util.bytesRoughlyContainsIterOutputForInputChar c out
+      = some (match afterFirst c out with | some r => (true, r) | none => (false, out)) :=
+  iter_eq c out
+
+/-- the body of `util.BytesRoughlyContains` as translated from the current source (both `range`
+loops) never indexes out of range and computes `roughlyContains`, for all inputs -/
+theorem generated_bytesRoughlyContains_eq (input output : Bytes) :
+    Gen.Bodies.Util.bytesRoughlyContains input output = some (roughlyContains input output) := by
+  unfold Gen.Bodies.Util.bytesRoughlyContains roughlyContains Go.forRange
+  cases hi : isInfix input output
+  · have hl : (Go.len output < Go.len input) ↔ output.length < input.length := by
+      simp only [Go.len]; omega
+    by_cases h : output.length < input.length
+    · simp [hl, h]
+    · simp only [hl, h, decide_false, Bool.false_eq_true, if_false, Bool.false_or]
+      exact outer_loop input output 0
+  · simp
 
 end Scrapli.Chan.C01
